@@ -166,6 +166,20 @@ SignHolderRedundant(s, n, c) ==
   ELSE IF HolderCommitRefused(s, n, c) THEN Err(s)
   ELSE Ok([s EXCEPT !.closed = TRUE])
 
+\* mutual close for the balances of content c (the holder, as funder, pays the closing fee):
+\* accepted iff both latest commitments exist, carry no HTLC and agree with the proposed
+\* balances within epsilon - the contents of this model differ by more than epsilon, so that
+\* is the relation CloseNear (the full predicate is the subject of MutualClose.tla, C07).
+\* balances of "A" and "P" differ by 100 sat (within epsilon), "B" is 100 000 sat away from both;
+\* "H" has an HTLC pending
+CloseNear(c, cur) == \/ c \in {"A", "P"} /\ cur = "A"
+                     \/ c = "B" /\ cur = "B"
+SignMutualClose(s, c) ==
+  IF s.phase = "stub" THEN Err(s)
+  ELSE IF s.curH = NoC \/ s.curC = NoC THEN Err(s)
+  ELSE IF ~(CloseNear(c, s.curH) /\ CloseNear(c, s.curC)) THEN Err(s)
+  ELSE Ok([s EXCEPT !.closed = TRUE])
+
 ---------------------------------------------------------------------------
 \* counterparty side
 
@@ -247,6 +261,7 @@ Step(s, r, k) ==
     [] r.op = "SignHolder"          -> SignHolder(s, r.n)
     [] r.op = "SignHolderRecovery"  -> SignHolderRecovery(s)
     [] r.op = "SignHolderRedundant" -> SignHolderRedundant(s, r.n, r.c)
+    [] r.op = "SignMutualClose"     -> SignMutualClose(s, r.c)
     [] r.op = "SignCp"              -> SignCp(s, r.n, r.t, r.c)
     [] r.op = "ValidateRevocation"  -> ValidateRevocation(s, r.n, [t |-> r.t, n |-> r.m],
                                                           k.atomicRevocation)
@@ -357,6 +372,7 @@ Requests(N, HC, CC, TT) ==
   \cup {[op |-> "SignHolder", n |-> n] : n \in 0..N + 1}
   \cup {[op |-> "SignHolderRecovery"]}
   \cup {[op |-> "SignHolderRedundant", n |-> n, c |-> c] : n \in 0..N + 2, c \in HC}
+  \cup {[op |-> "SignMutualClose", c |-> c] : c \in CC}
   \cup {[op |-> "SignCp", n |-> n, t |-> t, c |-> c] : n \in 0..N + 1, t \in TT, c \in CC}
   \cup {[op |-> "ValidateRevocation", n |-> n, t |-> t, m |-> m] :
             n \in 0..N, t \in TT, m \in 0..N}
